@@ -22,8 +22,8 @@ func keyHas(subs ...string) func(string) bool {
 }
 
 func init() {
-	prop("C01", []string{"FILTERED", "MGETSORT", "NOROWDROP", "GETNIL", "BYTESFRESH", "DISPATCH", "TWINPRIM", "PRIMWIRE", "OPMAPS", "ASTIMMUT", "ROWINDEX", "EVALBOTH", "STICKYFLAG", "REORDERGUARD", "FOLDKIND", "FOLDERR", "FOLDFLAGS", "ROWCARRY", "OP2TABLE"},
-		"Structural necessary conditions of C01, for every access path and both iteration modes: FILTERED (a pair leaves a scan only under the true result of the full filter applied to that same pair), NOROWDROP (no loop over a fetched batch drops already-consumed rows), MGETSORT (point reads are returned in sorted key order), GETNIL (a stored pair with an empty value is a pair), BYTESFRESH (evaluation never appends into memory it did not allocate, so stored values come back unmodified), DISPATCH/TWINPRIM/PRIMWIRE/OPMAPS (each operator the user writes is routed, in both modes, to the Go primitive the documentation names, with the same operator literal and operand order; conversion/string functions reach their documented primitives), ASTIMMUT (evaluation does not mutate the expression tree, so repetitions agree). ROWINDEX/ROWCARRY (a vector operator reads row-dependent operands per row, never from a fixed row of the chunk nor from a value computed for an earlier row and carried along), EVALBOTH (vector operators evaluate both operands), STICKYFLAG with FOLDKIND/FOLDERR/FOLDFLAGS/REORDERGUARD (the predicate that is executed is the predicate that was written: the rewriter's structural side conditions, shared with C04). OP2TABLE(query) (the text that is lexed is the text the caller wrote: literals are not rewritten before parsing).",
+	prop("C01", []string{"FILTERED", "MGETSORT", "NOROWDROP", "GETNIL", "BYTESFRESH", "DISPATCH", "TWINPRIM", "PRIMWIRE", "OPMAPS", "ASTIMMUT", "ROWINDEX", "EVALBOTH", "STICKYFLAG", "REORDERGUARD", "FOLDKIND", "FOLDERR", "FOLDFLAGS", "ROWCARRY", "OP2TABLE", "PARSEARGS", "IFACEEQ", "ROWALIAS", "ARGFRESH"},
+		"Structural necessary conditions of C01, for every access path and both iteration modes: FILTERED (a pair leaves a scan only under the true result of the full filter applied to that same pair), NOROWDROP (no loop over a fetched batch drops already-consumed rows), MGETSORT (point reads are returned in sorted key order), GETNIL (a stored pair with an empty value is a pair), BYTESFRESH (evaluation never appends into memory it did not allocate, so stored values come back unmodified), DISPATCH/TWINPRIM/PRIMWIRE/OPMAPS (each operator the user writes is routed, in both modes, to the Go primitive the documentation names, with the same operator literal and operand order; conversion/string functions reach their documented primitives), ASTIMMUT (evaluation does not mutate the expression tree, so repetitions agree). ROWINDEX/ROWCARRY (a vector operator reads row-dependent operands per row, never from a fixed row of the chunk nor from a value computed for an earlier row and carried along), EVALBOTH (vector operators evaluate both operands), STICKYFLAG with FOLDKIND/FOLDERR/FOLDFLAGS/REORDERGUARD (the predicate that is executed is the predicate that was written: the rewriter's structural side conditions, shared with C04). OP2TABLE(query) (the text that is lexed is the text the caller wrote: literals are not rewritten before parsing). PARSEARGS (numbers are read from text with base 10 / 64 bits everywhere), IFACEEQ (no type-strict interface equality or interface-keyed maps in evaluation code), ROWALIAS (no rewritten object shared by all rows of a chunk), ARGFRESH (function bodies do not write into their inputs).",
 		"The end-to-end row set needs evaluation of predicates on values; duplicates from repeated/overlapping IN literals and literal-on-the-left comparisons are not structurally decidable (DESIGN.md §6).")
 	propTable["C01"].KeyFilter["OP2TABLE"] = keyHas("|query|")
 	propTable["C01"].KeyFilter["NOROWDROP"] = keyHas("ScanPlan", "MultiGetPlan", "ProjectionPlan")
@@ -37,12 +37,12 @@ func init() {
 	propTable["C02"].KeyFilter["STICKYFLAG"] = keyHas("FilterOptimizer")
 	propTable["C02"].KeyFilter["NOROWDROP"] = keyHas("ScanPlan", "MultiGetPlan")
 
-	prop("C03", []string{"NOROWDROP", "CONSUMED", "FETCHLOOPEND", "CACHECOPY", "ADJUSTCALL", "ARITY", "LISTCOVER", "BODYKIND", "ASTIMMUT", "DISPATCH", "TWINPRIM", "LIMITGATE", "ERRPROP", "EVALBOTH", "FRESHROWS", "ROWINDEX", "ROWCARRY", "ADJUSTCOVER", "ROWCACHE", "FILTERED"},
-		"Structural necessary conditions of C03 (agreement of the row and batch twins): DISPATCH/TWINPRIM (both modes route every operator to corresponding helpers reaching the same primitives with the same literals), BODYKIND (row and vector bodies box the same kinds), ARITY (both modes apply both arity tests), LISTCOVER (both modes handle the same list representations), NOROWDROP/CONSUMED/LIMITGATE/FETCHLOOPEND (batch loops neither drop consumed rows, nor emit skipped ones, nor bypass the limit, nor spin), CACHECOPY/ADJUSTCALL/ASTIMMUT (the chunk cache and the tree are not corrupted by in-place vector operators), ERRPROP on both twins of every plan. EVALBOTH (no batch-only short circuit), ROWINDEX/ROWCARRY (no batch-only reuse of row 0 or of an earlier row's operand), FRESHROWS (batch results never alias plan-owned buffers that the next call rewrites). ADJUSTCOVER (no by-position cache entry of the unfiltered chunk survives filtering). ROWCACHE/FILTERED (row mode does not reuse per-row cache entries of another row and returns only filtered pairs, as batch mode does).",
+	prop("C03", []string{"NOROWDROP", "CONSUMED", "FETCHLOOPEND", "CACHECOPY", "ADJUSTCALL", "ARITY", "LISTCOVER", "BODYKIND", "ASTIMMUT", "DISPATCH", "TWINPRIM", "LIMITGATE", "ERRPROP", "EVALBOTH", "FRESHROWS", "ROWINDEX", "ROWCARRY", "ADJUSTCOVER", "ROWCACHE", "FILTERED", "IFACEEQ", "ROWALIAS"},
+		"Structural necessary conditions of C03 (agreement of the row and batch twins): DISPATCH/TWINPRIM (both modes route every operator to corresponding helpers reaching the same primitives with the same literals), BODYKIND (row and vector bodies box the same kinds), ARITY (both modes apply both arity tests), LISTCOVER (both modes handle the same list representations), NOROWDROP/CONSUMED/LIMITGATE/FETCHLOOPEND (batch loops neither drop consumed rows, nor emit skipped ones, nor bypass the limit, nor spin), CACHECOPY/ADJUSTCALL/ASTIMMUT (the chunk cache and the tree are not corrupted by in-place vector operators), ERRPROP on both twins of every plan. EVALBOTH (no batch-only short circuit), ROWINDEX/ROWCARRY (no batch-only reuse of row 0 or of an earlier row's operand), FRESHROWS (batch results never alias plan-owned buffers that the next call rewrites). ADJUSTCOVER (no by-position cache entry of the unfiltered chunk survives filtering). ROWCACHE/FILTERED (row mode does not reuse per-row cache entries of another row and returns only filtered pairs, as batch mode does). IFACEEQ/ROWALIAS (no batch-only comparison or sharing shortcut).",
 		"Equality of computed values and the refill arithmetic beyond these clauses need execution.")
 
-	prop("C04", []string{"FOLDKIND", "FOLDERR", "REORDERGUARD", "FOLDFLAGS", "BODYKIND", "STICKYFLAG", "ASTIMMUT"},
-		"Structural necessary conditions of C04: FOLDKIND (a folded literal node has the kind of the value it was folded from and is built from the typed value, not from text), FOLDERR (folding happens only when evaluation succeeded), REORDERGUARD (re-association only for + and * chains with the same operator inside and outside), BODYKIND (folded function calls box the kind their registry row declares). STICKYFLAG (a call is folded only if every argument is a literal). ASTIMMUT (a folded constant node is not used as mutable scratch space by the evaluator).",
+	prop("C04", []string{"FOLDKIND", "FOLDERR", "REORDERGUARD", "FOLDFLAGS", "BODYKIND", "STICKYFLAG", "ASTIMMUT", "ARGFRESH", "PARSEARGS"},
+		"Structural necessary conditions of C04: FOLDKIND (a folded literal node has the kind of the value it was folded from and is built from the typed value, not from text), FOLDERR (folding happens only when evaluation succeeded), REORDERGUARD (re-association only for + and * chains with the same operator inside and outside), BODYKIND (folded function calls box the kind their registry row declares). STICKYFLAG (a call is folded only if every argument is a literal). ASTIMMUT (a folded constant node is not used as mutable scratch space by the evaluator). ARGFRESH/PARSEARGS (a folded constant is not modified by the functions applied to it; literals are parsed with 64 bits).",
 		"Numeric equality of folded and unfolded evaluation and the truth table of the Boolean simplifier need evaluation (DESIGN.md §6).")
 
 	propTable["C04"].KeyFilter["STICKYFLAG"] = keyHas("ExpressionOptimizer")
@@ -67,20 +67,20 @@ func init() {
 		"The count arithmetic over refills is a runtime quantity.")
 	propTable["C08"].KeyFilter["RMGUARD"] = keyHas("no-limit")
 
-	prop("C09", []string{"AGGRSEM", "CLONEFRESH", "ROWCLONE", "KEYFRAME", "RESULTIDX", "PRIMWIRE", "ARITY", "ROWCACHE", "REORDERGUARD", "FOLDKIND", "AGGRALLFLAG"},
-		"Structural necessary conditions of C09: KEYFRAME (group keys frame their components, so distinct tuples never collide), ROWCLONE/CLONEFRESH (each group owns fresh accumulators), AGGRSEM (count/sum/avg/min/max update and complete according to their definitions, integers compared as integers), RESULTIDX (each aggregate's result is substituted into its own call node), PRIMWIRE (each aggregate name has its own constructor and accumulator type), ARITY (constructors index only guaranteed arguments), ROWCACHE (values cached for one pair are not reused for another while grouping). AGGRALLFLAG (one group for all pairs exactly when there is no GROUP BY), FOLDKIND/REORDERGUARD (arithmetic around aggregates is not rewritten unsoundly).",
+	prop("C09", []string{"AGGRSEM", "CLONEFRESH", "ROWCLONE", "KEYFRAME", "RESULTIDX", "PRIMWIRE", "ARITY", "ROWCACHE", "REORDERGUARD", "FOLDKIND", "AGGRALLFLAG", "PARSEARGS"},
+		"Structural necessary conditions of C09: KEYFRAME (group keys frame their components, so distinct tuples never collide), ROWCLONE/CLONEFRESH (each group owns fresh accumulators), AGGRSEM (count/sum/avg/min/max update and complete according to their definitions, integers compared as integers), RESULTIDX (each aggregate's result is substituted into its own call node), PRIMWIRE (each aggregate name has its own constructor and accumulator type), ARITY (constructors index only guaranteed arguments), ROWCACHE (values cached for one pair are not reused for another while grouping). AGGRALLFLAG (one group for all pairs exactly when there is no GROUP BY), FOLDKIND/REORDERGUARD (arithmetic around aggregates is not rewritten unsoundly). PARSEARGS (the integer image of a textual number comes from ParseInt; ParseFloat is only the fallback).",
 		"The arithmetic of the accumulators on concrete values needs execution.")
 	propTable["C09"].KeyFilter["PRIMWIRE"] = keyHas("aggr")
 	propTable["C09"].KeyFilter["ROWCACHE"] = keyHas("AggregatePlan")
 
-	prop("C10", []string{"LISTCOVER", "BODYKIND", "PRIMWIRE", "ARITY", "ASTIMMUT", "TWINPRIM", "ERRALL", "ROWINDEX", "FOLDKIND", "FOLDERR", "FOLDFLAGS", "STICKYFLAG", "ROWCARRY"},
-		"Structural necessary conditions of C10: PRIMWIRE (each documented function is registered under its name and both bodies reach the documented primitive on the text argument, base 10, with the length check for distances; no two names share a body except the documented aliases), BODYKIND (bodies return their declared kinds, identically in both modes), LISTCOVER (every list consumer handles every list representation, in both modes), ARITY, ASTIMMUT (constant arguments behave like row-dependent ones: no state is kept in the tree), TWINPRIM (row and vector bodies reach the same primitives). ROWINDEX/ROWCARRY (vector bodies read row-dependent arguments per row), FOLDKIND/FOLDERR/FOLDFLAGS/STICKYFLAG(call folding) (a call with constant arguments is folded only when all arguments are literals, evaluation succeeded, and to a literal of the returned kind, so constants and row-dependent arguments agree).",
+	prop("C10", []string{"LISTCOVER", "BODYKIND", "PRIMWIRE", "ARITY", "ASTIMMUT", "TWINPRIM", "ERRALL", "ROWINDEX", "FOLDKIND", "FOLDERR", "FOLDFLAGS", "STICKYFLAG", "ROWCARRY", "PARSEARGS", "IFACEEQ", "ROWALIAS", "ARGFRESH"},
+		"Structural necessary conditions of C10: PRIMWIRE (each documented function is registered under its name and both bodies reach the documented primitive on the text argument, base 10, with the length check for distances; no two names share a body except the documented aliases), BODYKIND (bodies return their declared kinds, identically in both modes), LISTCOVER (every list consumer handles every list representation, in both modes), ARITY, ASTIMMUT (constant arguments behave like row-dependent ones: no state is kept in the tree), TWINPRIM (row and vector bodies reach the same primitives). ROWINDEX/ROWCARRY (vector bodies read row-dependent arguments per row), FOLDKIND/FOLDERR/FOLDFLAGS/STICKYFLAG(call folding) (a call with constant arguments is folded only when all arguments are literals, evaluation succeeded, and to a literal of the returned kind, so constants and row-dependent arguments agree). PARSEARGS, IFACEEQ, ROWALIAS, ARGFRESH (bodies read numbers uniformly, compare numerically, build one fresh result per row and never write into their arguments).",
 		"The computed values themselves need execution.")
 
 	propTable["C10"].KeyFilter["STICKYFLAG"] = keyHas("ExpressionOptimizer")
 
-	prop("C11", []string{"RMGUARD", "DELKEYS", "MUTSITE", "CHILDVISIT", "LIMITWRAP", "LIMITMAP", "ERRPROP", "NOROWDROP", "CONSUMED"},
-		"Structural necessary conditions of C11: DELKEYS (BatchDelete receives exactly the keys of the rows fetched in that iteration), MUTSITE(e) (DELETE issues no Put), RMGUARD with CHILDVISIT(Walk) (direct key removal only without LIMIT and without any AND anywhere in the filter; the walk sees every node), LIMITWRAP/LIMITMAP/CONSUMED/NOROWDROP (the limit is applied to the raw pairs, exactly), ERRPROP in execute.",
+	prop("C11", []string{"RMGUARD", "DELKEYS", "MUTSITE", "CHILDVISIT", "LIMITWRAP", "LIMITMAP", "ERRPROP", "NOROWDROP", "CONSUMED", "ARGFRESH"},
+		"Structural necessary conditions of C11: DELKEYS (BatchDelete receives exactly the keys of the rows fetched in that iteration), MUTSITE(e) (DELETE issues no Put), RMGUARD with CHILDVISIT(Walk) (direct key removal only without LIMIT and without any AND anywhere in the filter; the walk sees every node), LIMITWRAP/LIMITMAP/CONSUMED/NOROWDROP (the limit is applied to the raw pairs, exactly), ERRPROP in execute. ARGFRESH (no function applied in the WHERE clause rewrites the key bytes that are then handed to BatchDelete).",
 		"Which keys the filter selects is C01/C02/C08.")
 	propTable["C11"].KeyFilter["MUTSITE"] = keyHas("MUTSITE|e|", "MUTSITE|a|")
 	propTable["C11"].KeyFilter["CHILDVISIT"] = keyHas("|Walk|")
@@ -89,8 +89,8 @@ func init() {
 	propTable["C11"].KeyFilter["CONSUMED"] = keyHas("(*LimitPlan)")
 	propTable["C11"].KeyFilter["LIMITMAP"] = keyHas("LimitPlan", "parse|")
 
-	prop("C12", []string{"EXECONCE", "WRITEONCE", "PUTKEYFLOW", "KWFLAGS", "MUTSITE", "CHILDVISIT", "STMTLIST", "ROWCACHE"},
-		"Structural necessary conditions of C12: EXECONCE (writes happen only while executed == false, which is set on every path after they start and reset only by Init), WRITEONCE (one storage write per PUT/REMOVE, outside any loop, with every expression evaluated before it), PUTKEYFLOW (each value expression sees its own pair's evaluated key; pairs reach BatchPut in statement order, untouched by any other call), KWFLAGS and CHILDVISIT(Validate) (the static restrictions are wired and every key/value expression is checked), MUTSITE(e) (PUT only puts, REMOVE only deletes). STMTLIST (the write plans receive the statement's own pair/key list: nothing is filtered out, so every pair is evaluated and a failing one fails the statement). ROWCACHE(PutPlan/RemovePlan) (one context is not shared between the pairs of a statement without being cleared, so a value cached for one pair is not seen by the next).",
+	prop("C12", []string{"EXECONCE", "WRITEONCE", "PUTKEYFLOW", "KWFLAGS", "MUTSITE", "CHILDVISIT", "STMTLIST", "ROWCACHE", "RMKEYFLOW"},
+		"Structural necessary conditions of C12: EXECONCE (writes happen only while executed == false, which is set on every path after they start and reset only by Init), WRITEONCE (one storage write per PUT/REMOVE, outside any loop, with every expression evaluated before it), PUTKEYFLOW (each value expression sees its own pair's evaluated key; pairs reach BatchPut in statement order, untouched by any other call), KWFLAGS and CHILDVISIT(Validate) (the static restrictions are wired and every key/value expression is checked), MUTSITE(e) (PUT only puts, REMOVE only deletes). STMTLIST (the write plans receive the statement's own pair/key list: nothing is filtered out, so every pair is evaluated and a failing one fails the statement). ROWCACHE(PutPlan/RemovePlan) (one context is not shared between the pairs of a statement without being cleared, so a value cached for one pair is not seen by the next). RMKEYFLOW (REMOVE deletes the evaluated keys, not text from the syntax tree).",
 		"The store contents after the write depend on the caller's Storage.")
 	propTable["C12"].KeyFilter["ROWCACHE"] = keyHas("PutPlan", "RemovePlan")
 	propTable["C12"].KeyFilter["MUTSITE"] = keyHas("MUTSITE|e|", "MUTSITE|c|")
@@ -100,14 +100,14 @@ func init() {
 		"Structural necessary conditions of C13, decided for every function, path and call site of the package: MUTSITE (mutating Storage calls exist only inside the three writer plans; the closure of the SELECT builder with all methods of every plan type it can build has none; planning has none; parsing/checking reach no storage call at all), PARSEFIRST (no storage-reaching call before the parse/validate error test succeeded), ERRPROP (every error produced by a storage-reaching call is examined on every path and returned - itself or wrapped - on every failure path, with no further storage-reaching call and no loop continuation). REJECTFIRST (a statement rejected while its plan is built has not reached storage).",
 		"Nothing structural is left out; 'returns that error' is decided as 'the returned error is data-derived from it'. The caller's Storage implementation is outside the analysis.")
 
-	prop("C14", []string{"CHILDVISIT", "FUNCREG", "WHEREBOOL", "KWFLAGS", "MUTSITE", "PARSEFIRST", "LISTCOVER", "NOTWRAP", "CACHECOPY", "ADMIT", "ERRALL", "REJECTFIRST", "CHECKROUTE", "ADMITCLASS"},
-		"Structural necessary conditions of C14: CHILDVISIT (every Expression node's Check visits every child before any success return and returns the child's error, so a fault is seen at every syntactic position; every statement's Validate reaches Check on each of its expressions and the parser returns the validation error), NOTWRAP (the parser builds a `!` node for every `!` it consumes), FUNCREG (the function-call Check consults both registries and the arity), WHEREBOOL (SELECT and DELETE both type-check the WHERE expression and require a Boolean result), KWFLAGS (PUT forbids `value`, REMOVE forbids `key`/`value`), LISTCOVER(in) (what checkWithIn admits on the right of IN is handled by both executors), MUTSITE(d)+PARSEFIRST (rejection happens before any storage access). REJECTFIRST (while the plan is built, every rejection is produced before the first storage operation, in every function of that phase including each plan's Init). CHECKROUTE (operators sharing an evaluator share a typing rule), ADMITCLASS (an operator is admitted only for the static operand types its evaluator has a case for).",
+	prop("C14", []string{"CHILDVISIT", "FUNCREG", "WHEREBOOL", "KWFLAGS", "MUTSITE", "PARSEFIRST", "LISTCOVER", "NOTWRAP", "CACHECOPY", "ADMIT", "ERRALL", "REJECTFIRST", "CHECKROUTE", "ADMITCLASS", "LISTTYPE"},
+		"Structural necessary conditions of C14: CHILDVISIT (every Expression node's Check visits every child before any success return and returns the child's error, so a fault is seen at every syntactic position; every statement's Validate reaches Check on each of its expressions and the parser returns the validation error), NOTWRAP (the parser builds a `!` node for every `!` it consumes), FUNCREG (the function-call Check consults both registries and the arity), WHEREBOOL (SELECT and DELETE both type-check the WHERE expression and require a Boolean result), KWFLAGS (PUT forbids `value`, REMOVE forbids `key`/`value`), LISTCOVER(in) (what checkWithIn admits on the right of IN is handled by both executors), MUTSITE(d)+PARSEFIRST (rejection happens before any storage access). REJECTFIRST (while the plan is built, every rejection is produced before the first storage operation, in every function of that phase including each plan's Init). CHECKROUTE (operators sharing an evaluator share a typing rule), ADMITCLASS (an operator is admitted only for the static operand types its evaluator has a case for). LISTTYPE (every IN / BETWEEN element is typed like the left operand).",
 		"Completeness and soundness of the operand typing rules themselves are value/type-level facts not decided here.")
 	propTable["C14"].KeyFilter["MUTSITE"] = keyHas("MUTSITE|d|")
 	propTable["C14"].KeyFilter["LISTCOVER"] = keyHas("|in|")
 
-	prop("C15", []string{"PRECTABLE", "ASSOC", "OPMAPS", "KWTABLE", "RENDER"},
-		"Structural necessary conditions of C15: PRECTABLE (Token.Precedence realises the documented binding order, equal within a class, all below unary), ASSOC (every right-operand parse, also through the BETWEEN helper, starts at the consumed operator's precedence + 1; the loop stops below the minimum), OPMAPS (operator spellings and operators are mutually inverse, so canonical rendering re-lexes to the same operator), KWTABLE (keywords and operator words are classified after lower-casing the whole word), RENDER (binary nodes render as (left op right) with the canonical spelling, literals render their text verbatim between quotes).",
+	prop("C15", []string{"PRECTABLE", "ASSOC", "OPMAPS", "KWTABLE", "RENDER", "LITDATA"},
+		"Structural necessary conditions of C15: PRECTABLE (Token.Precedence realises the documented binding order, equal within a class, all below unary), ASSOC (every right-operand parse, also through the BETWEEN helper, starts at the consumed operator's precedence + 1; the loop stops below the minimum), OPMAPS (operator spellings and operators are mutually inverse, so canonical rendering re-lexes to the same operator), KWTABLE (keywords and operator words are classified after lower-casing the whole word), RENDER (binary nodes render as (left op right) with the canonical spelling, literals render their text verbatim between quotes). LITDATA (literal nodes keep the text they were written with).",
 		"The whole-tree print/re-parse fix-point needs parsing.")
 
 	prop("C16", []string{"KWTABLE", "OP2TABLE", "WORDRESET"},
